@@ -68,7 +68,11 @@ def authentication_required(meth):
 
     def check(cls, *args, **kwargs):
         if cls.authenticated:
-            return meth(cls, *args, **kwargs)
+            try:
+                return meth(cls, *args, **kwargs)
+            except UnicodeEncodeError as e:
+                # arguments are encoded before anything is sent
+                raise Error("Cannot encode argument: %s" % e)
         raise Error("Authentication required")
 
     return check
@@ -321,8 +325,12 @@ class Client:
 
         """
         tosend = name.encode("utf-8")
+        try:
+            args = self.__prepare_args(args) if args else args
+        except ValueError as e:
+            raise Error("Cannot encode argument: %s" % e)
         if args:
-            tosend += b" " + b" ".join(self.__prepare_args(args))
+            tosend += b" " + b" ".join(args)
         self.__dprint(b"Command: " + tosend)
         try:
             self.sock.sendall(tosend + CRLF)
@@ -783,6 +791,9 @@ class Client:
         :param newname: new script's name
         :rtype: boolean
         """
+        # a name that cannot be sent is refused before the first command
+        oldname.encode("utf-8"), newname.encode("utf-8")
+
         if "VERSION" in self.__capabilities:
             code, data = self.__send_command(
                 "RENAMESCRIPT", [oldname.encode("utf-8"), newname.encode("utf-8")]
